@@ -106,6 +106,14 @@ def closure_independent(est_name, k, d):
     est.components_[...] = L2          # in-place change of the estimator's state
     after = f(x, y, squared=True)
     ctx.require('metric_fun_unaffected_by_later_change', ctx.eq(before, after, tol=0.0))
+    # a later refit may even change the dimensionality: the handed-out function still answers for the points it was made for
+    est.components_ = ctx.real('R', (k, d + 1))
+    est.n_features_in_ = d + 1
+    try:
+      after2 = f(x, y, squared=True)
+      ctx.require('metric_fun_unaffected_by_refit_on_other_dimension', ctx.eq(before, after2, tol=0.0))
+    except Exception as e:   # noqa
+      ctx.fail('metric_fun_unaffected_by_refit_on_other_dimension', detail=repr(e))
     est.components_ = L
     M2 = est.get_mahalanobis_matrix()
     ctx.require('matrix_is_fresh_each_call', ctx.cond(M2 is not M))
